@@ -18,8 +18,16 @@ type ScriptReader struct {
 	Pos         int
 	Answer      func(remaining, buf int) int
 	FailAt      int
+	FailErr     error // error served from FailAt on (nil: ErrInjected); e.g. io.ErrUnexpectedEOF of a truncated gzip source
 	EOFWithData bool
 	Calls       int
+}
+
+func (r *ScriptReader) failErr() error {
+	if r.FailErr != nil {
+		return r.FailErr
+	}
+	return ErrInjected
 }
 
 func NewScriptReader(data []byte) *ScriptReader { return &ScriptReader{Data: data, FailAt: -1} }
@@ -27,7 +35,7 @@ func NewScriptReader(data []byte) *ScriptReader { return &ScriptReader{Data: dat
 func (r *ScriptReader) Read(p []byte) (int, error) {
 	r.Calls++
 	if r.FailAt >= 0 && r.Pos >= r.FailAt {
-		return 0, ErrInjected
+		return 0, r.failErr()
 	}
 	if len(p) == 0 {
 		return 0, nil
@@ -38,7 +46,7 @@ func (r *ScriptReader) Read(p []byte) (int, error) {
 	}
 	if rem == 0 {
 		if r.FailAt >= 0 {
-			return 0, ErrInjected
+			return 0, r.failErr()
 		}
 		return 0, io.EOF
 	}
